@@ -20,6 +20,7 @@ Step == /\ l <= Len(Ev)
              \/ (a = "O" /\ SetOptions(x))
              \/ (a = "C" /\ Compute)
              \/ (a = "F" /\ Foreign(x))
+             \/ (a = "M" /\ Remeasure(x))
         /\ l' = l + 1 /\ UNCHANGED tid
 Finished == l > Len(Ev) /\ UNCHANGED tvars
 TNext == Step \/ Finished
@@ -30,6 +31,7 @@ AtCompute == l > 1 /\ Last.a = "C"
 \* the reference configuration logged by the harness is the one the model expects
 CfgMatches == AtCompute =>
     /\ result.kind = "layout"
+    /\ Last.ver = result.ver
     /\ Last.cfg = [base |-> result.base, mx |-> result.opts.mx, mn |-> result.opts.mn, ns |-> result.opts.ns,
                    alg |-> result.opts.alg, sw |-> result.opts.sw, dn |-> result.opts.dn]
 \* C06: same layer and position for every label as a fresh engine on fresh labels
